@@ -389,11 +389,12 @@ const (
 	gSliver
 	gSubdivided
 	gGenus
+	gCollide
 	gKinds
 	gFlatTiny = gKinds // only on request
 )
 
-var kindNames = []string{"icosphere", "torus", "gridbox", "voxel", "mc", "tiny", "multi", "sliver", "subdivided", "genus", "flat-tiny"}
+var kindNames = []string{"icosphere", "torus", "gridbox", "voxel", "mc", "tiny", "multi", "sliver", "subdivided", "genus", "hash-colliding", "flat-tiny"}
 
 func baseMesh(rng *rand.Rand, kind int, maxFaces int) (*model3d.Mesh, string, bool) {
 	switch kind {
@@ -446,6 +447,12 @@ func baseMesh(rng *rand.Rand, kind int, maxFaces int) (*model3d.Mesh, string, bo
 		m := model3d.MarchingCubes(s, delta)
 		return m, fmt.Sprintf("MarchingCubes(%s,%g)", s.desc, delta), false
 	case gTiny:
+		m, d := tinyMesh(rng)
+		return m, d, false
+	case gCollide:
+		if m, d, ok := collidingBipyramid(rng); ok {
+			return m, d, false
+		}
 		m, d := tinyMesh(rng)
 		return m, d, false
 	case gMulti:
